@@ -91,7 +91,7 @@ CHECKS["C05"] = {
     "level_note": "bounded: N<=2, L<=3 (quick) / L<=4 and N<=3 with L<=3 (thorough); trusted: only the equality test (differential, no hand-written expectation)",
     "rule": "case = (configuration, base file, insertion point, indentation, comment char, text); non-trivial = text contains a structural character, or the line "
             "is indented, or it directly follows an entry line; distinct by construction",
-    "deadline": {"quick": 100, "thorough": 1200},
+    "deadline": {"quick": 125, "thorough": 1200},
     "parts": [
         {"name": "insert", "harness": "c05", "variant": "asan", "quick": ["--p0", 2, "--p1", 3, "--p2", 4], "thorough": ["--p0", 2, "--p1", 4, "--p2", 5],
          "deadline_share": 0.5, "floor": {"quick": 100000, "thorough": 1000000}},
@@ -121,7 +121,7 @@ CHECKS["C04"] = {
                   "reachable from the bounded inputs; trusted: gcc ASan+UBSan, the shape abstraction (merge looks only at equal group names, equal keys, NULL values)",
     "rule": "case = (configuration, content); non-trivial = the read succeeded and the object was exercised; distinct by construction; merge part: ordered pairs "
             "of objects with distinct listing shapes (groups/keys renamed by first occurrence, NULL-ness of values, empty sections)",
-    "deadline": {"quick": 110, "thorough": 1500},
+    "deadline": {"quick": 130, "thorough": 1500},
     "parts": [
         {"name": "bytes", "harness": "c04", "variant": "asan", "ldflags": ["-pthread"], "quick": ["--p0", 0, "--p1", 4, "--p2", 5], "thorough": ["--p0", 0, "--p1", 5, "--p2", 6],
          "deadline_share": 0.3, "floor": {"quick": 100000, "thorough": 1000000}},
